@@ -10,7 +10,7 @@ cleanup() { git -C /repo worktree remove --force "$wt" >/dev/null 2>&1; rm -rf "
 trap cleanup EXIT
 "$(dirname "$0")/apply_seed.sh" "$wt" "$src/patch.diff" || { echo "patch does not apply"; exit 2; }
 cd "$VROOT"
-VERIF_OUT_DIR="/tmp/seedout-$$" VERIF_REPO="$wt" VERIF_SEED="${VERIF_SEED:-1}" ./check.sh "$prop" "$tier" > "/tmp/try-$prop-$$.log" 2>&1
+VERIF_FAILFAST=1 VERIF_OUT_DIR="/tmp/seedout-$$" VERIF_REPO="$wt" VERIF_SEED="${VERIF_SEED:-1}" ./check.sh "$prop" "$tier" > "/tmp/try-$prop-$$.log" 2>&1
 rc=$?
 echo "== $(basename $src) $prop $tier exit=$rc"
 grep -E "^(VIOLATION|  |INFRA|KNOWN)" "/tmp/try-$prop-$$.log" | grep -v "  divergence" | cut -c1-400 | head -8
